@@ -65,6 +65,10 @@ type cview struct { // what one client has observed
 	// RELEASE or (valid) DECLINE of this client; survives NAKs and time (root-cause evidence
 	// for the "reservation without lease is never reclaimed" class)
 	pinned map[string]bool
+	// bound: the binding the client was TOLD it has (last ACK: address, lease time), until it
+	// releases/declines it or is NAKed. The server forgetting a lease does not end it.
+	bound      string
+	boundUntil time.Time
 }
 
 type offerRec struct {
@@ -380,16 +384,25 @@ func (s *v4sys) msg(n, kind, circuit string) string {
 					s.v("O1-ack-offered-to-other", site, "%s was ACKed %s which is currently offered to %s%s", n, x, on, how)
 				}
 			}
+			for _, on := range s.names {
+				if ov := s.view[on]; on != n && ov.bound == x && now.Before(ov.boundUntil) && !s.hasLease(pre, on) {
+					s.v("O1-ack-leased-to-other", site, "%s was ACKed %s which %s was acknowledged for (%v left) and never gave up; the server no longer has %s's lease", n, x, on, ov.boundUntil.Sub(now), on)
+				}
+			}
 			if own != nil && ip4s(own.IP) != x {
 				s.v("O4-renew-changed", site, "%s holds an unexpired lease on %s but was ACKed %s", n, ip4s(own.IP), x)
 			}
 			v.leased, v.prev, v.offer = x, x, ""
+			v.bound, v.boundUntil = x, now
+			if lt := r.Pkt.IPAddressLeaseTime(0); lt < 1e9*time.Second { // (a negative pool lease time wraps: born expired)
+				v.boundUntil = now.Add(lt)
+			}
 			delete(v.pinned, x)
 			delete(s.offers, n+"/"+x)
 		case dhcpv4.MessageTypeNak:
 			// the client restarts; the server-side reservation of an earlier OFFER is not
 			// cancelled by a NAK (it lapses with the offer hold)
-			v.leased, v.offer = "", ""
+			v.leased, v.offer, v.bound = "", "", ""
 		}
 	}
 	switch m.Type {
@@ -399,7 +412,7 @@ func (s *v4sys) msg(n, kind, circuit string) string {
 			s.v("O4-renew-refused", site, "%s asked for its own unexpired lease %s and was answered %v", n, target, obs)
 		}
 	case dhcpv4.MessageTypeRelease:
-		v.leased, v.offer = "", ""
+		v.leased, v.offer, v.bound = "", "", ""
 		delete(v.pinned, target)
 		delete(s.offers, n+"/"+target)
 	case dhcpv4.MessageTypeDecline:
@@ -407,7 +420,7 @@ func (s *v4sys) msg(n, kind, circuit string) string {
 		// (whatever symbolic op produced it); then the address is retired for the horizon.
 		if ownAny != nil && ip4s(ownAny.IP) == target {
 			s.declined[target] = true
-			v.leased, v.offer = "", ""
+			v.leased, v.offer, v.bound = "", "", ""
 			delete(v.pinned, target)
 			delete(s.offers, n+"/"+target)
 		}
@@ -417,6 +430,15 @@ func (s *v4sys) msg(n, kind, circuit string) string {
 		return "-"
 	}
 	return strings.Join(obs, ",")
+}
+
+func (s *v4sys) hasLease(ls []dhcpdrv.Lease, client string) bool {
+	for _, l := range ls {
+		if s.who(l.Key) == client {
+			return true
+		}
+	}
+	return false
 }
 
 func (s *v4sys) who(key string) string {
@@ -461,7 +483,7 @@ func (s *v4sys) Fingerprint() string {
 		}}))
 	for _, n := range s.names {
 		v := s.view[n]
-		fmt.Fprintf(&sb, "|%s:%s,%s,%s,%v", n, v.offer, v.leased, v.prev, keys(v.pinned))
+		fmt.Fprintf(&sb, "|%s:%s,%s,%s,%v,%s@%d", n, v.offer, v.leased, v.prev, keys(v.pinned), v.bound, v.boundUntil.Sub(now).Milliseconds())
 	}
 	var ok []string
 	for k, o := range s.offers {
@@ -503,6 +525,13 @@ func (s *v4sys) Check() []explore.Viol {
 	for k, o := range s.offers {
 		if _, ok := reserved[o.ip]; !ok {
 			reserved[o.ip] = "offer to " + k[:strings.Index(k, "/")]
+		}
+	}
+	for _, n := range s.names {
+		if v := s.view[n]; v.bound != "" && now.Before(v.boundUntil) {
+			if _, ok := reserved[v.bound]; !ok {
+				reserved[v.bound] = "acknowledged binding of " + n + " (no lease-table entry)"
+			}
 		}
 	}
 	for d := range s.declined {
